@@ -82,6 +82,14 @@ def results(args):
     return body
 
 
+def _neq(a, b):
+    """Lists differ by VALUE (length or some element)."""
+    a, b = list(a), list(b)
+    if len(a) != len(b):
+        return True
+    return Or(*[x != y for x, y in zip(a, b)]) if a else False
+
+
 def _views(ctx, res, prob, inds, n, o, maxtag, lastpop):
     ctx.check('default-is-last-generation', [x.id for x in res.population()] != [x.id for x in lastpop])
     for t in (0, 1, 2):
@@ -90,27 +98,33 @@ def _views(ctx, res, prob, inds, n, o, maxtag, lastpop):
     pops = prob.populations()
     ctx.check('populations-partition', sorted(x.id for lst in pops.values() for x in lst) != list(range(n)) or
               any(x.population_id != k for k, lst in pops.items() for x in lst))
-    # table: every row is vector ++ costs of exactly one recorded individual
+    # expected listing order of table()/parameters(): generations in order of first appearance,
+    # recording order inside a generation
+    order = []
+    for t in dict.fromkeys(x.population_id for x in inds):
+        order.extend(x for x in inds if x.population_id == t)
     rows = res.table(transpose=False)
     ctx.check('table-row-count', len(rows) != n)
-    used = []
-    for r in rows:
-        owner = [x for x in inds if _same(r, x.vector + x.costs)]
-        ctx.check('table-row-pairs-own-vector-and-costs', len(owner) != 1)
-        used.extend(o_.id for o_ in owner)
-    ctx.check('table-each-individual-once', sorted(used) != list(range(n)))
+    if len(rows) == n:
+        ctx.check('table-row-pairs-own-vector-and-costs', Or(*[_neq(r, x.vector + x.costs) for r, x in zip(rows, order)]))
     cols = res.table()
-    ctx.check('table-transposed', len(cols) != 2 + o or any(len(c) != n for c in cols) or
-              any(cols[j][i] is not rows[i][j] for i in range(n) for j in range(2 + o)))
+    ok_shape = len(cols) == 2 + o and all(len(c) == n for c in cols) and len(rows) == n
+    ctx.check('table-transposed-shape', not ok_shape)
+    if ok_shape:
+        ctx.check('table-transposed', Or(*[cols[j][i] != rows[i][j] for i in range(n) for j in range(2 + o)]))
     ps = res.parameters()
-    ctx.check('parameters-listing', len(ps) != n or sorted(id(p) for p in ps) != sorted(id(x.vector) for x in inds))
+    ctx.check('parameters-listing', True if len(ps) != n else Or(*[_neq(p, x.vector) for p, x in zip(ps, order)]))
     cs = res.costs()
-    ctx.check('costs-listing', len(cs) != o or any(not _same(cs[k], [x.costs[k] for x in inds]) for k in range(o)))
+    ctx.check('costs-listing', True if len(cs) != o else Or(*[_neq(cs[k], [x.costs[k] for x in inds]) for k in range(o)]))
     pi = res.pareto_individuals()
     want = [x for x in lastpop if _front1(x)]
     ctx.check('pareto-individuals', [x.id for x in pi] != [x.id for x in want])
     pf = res.pareto_front()
-    ctx.check('pareto-front-costs', len(pf) != o or any(not _same(pf[k], [x.costs[k] for x in want]) for k in range(o)))
+    ctx.check('pareto-front-costs', True if len(pf) != o else Or(*[_neq(pf[k], [x.costs[k] for x in want]) for k in range(o)]))
+
+
+def _b(ctx, v):
+    return v
 
 
 def _optimum(ctx, res, inds, o, crit):
@@ -145,7 +159,7 @@ def _pairs(ctx, name, first, second, expected_pairs, srt):
         ctx.check(name + '-is-sorted', Or(*[first[i] > first[i + 1] for i in range(len(first) - 1)]))
     else:
         ctx.check(name + '-keeps-pairs-in-recording-order',
-                  any(g[0] is not e[0] or g[1] is not e[1] for g, e in zip(got, expected_pairs)))
+                  Or(*[Or(g[0] != e[0], g[1] != e[1]) for g, e in zip(got, expected_pairs)]) if got else False)
 
 
 def eps_add(args):
